@@ -85,30 +85,36 @@ is only replaced by `RevertToSnapshot`; the live `Suicided` map is only written 
 (with the popped snapshot's own map) and by `CommitToCacheDB`. -/
 
 open OntVerif.Gen.StateAlias in
+/-- (A1) `DeepClone` returns one `MemDB{…}` literal that sets every field, with new backing arrays for the slice fields;
+the only reference-typed fields two MemDBs can share are listed -/
 theorem C08_alias_deepclone :
-    deepCloneSlicesFresh = true ∧ deepCloneSetsAllFields = true ∧
+    deepCloneSlicesFresh = true ∧ deepCloneSetsAllFields = true ∧ deepCloneReturnsLiteral = true ∧
     memDBRefFields = [("cmp", "comparer.BasicComparer"), ("rnd", "*rand.Rand"), ("kvData", "[]byte"), ("nodeData", "[]int")] := by
   decide
 
 open OntVerif.Gen.StateAlias in
+/-- (A2) `Snapshot()` pushes one `snapshot{…}` literal: a DeepClone of the memdb, a FRESH copy of the `Suicided` map, the
+current length of `logs` and the current `refund`; the struct holds no slice -/
 theorem C08_alias_snapshot :
-    snapshotMapFreshCopy = true ∧ snapshotMemdbCloned = true ∧
-    snapshotStruct = [("changes", "*overlaydb.MemDB"), ("suicided", "map[common.Address]bool"), ("logsSize", "int"), ("refund", "uint64")] ∧
-    snapshotLiteral = [("changes", "changes"), ("suicided", "suicided"), ("logsSize", "len(self.logs)"), ("refund", "self.refund")] := by
+    snapshotMapFreshCopy = true ∧ snapshotMemdbCloned = true ∧ snapshotRecordsLogsLen = true ∧ snapshotRecordsRefund = true ∧
+    snapshotPushed = true ∧ snapshotLiteralFields = ["changes", "logsSize", "refund", "suicided"] ∧
+    snapshotStruct = [("changes", "*overlaydb.MemDB"), ("suicided", "map[common.Address]bool"), ("logsSize", "int"), ("refund", "uint64")] := by
   decide
 
 open OntVerif.Gen.StateAlias in
+/-- (A3) `RevertToSnapshot` unconditionally restores the four parts from the saved snapshot and cuts the stack, and does
+nothing else (apart from the bounds check) -/
 theorem C08_alias_revert :
-    revertAssignments = ["self.snapshots = self.snapshots[:idx]", "self.cacheDB.memdb = sn.changes", "self.Suicided = sn.suicided",
-      "self.refund = sn.refund", "self.logs = self.logs[:sn.logsSize]"] := by
+    revertAssignments = ["recv.Suicided=saved.suicided", "recv.cacheDB.memdb=saved.changes", "recv.logs=recv.logs[:saved.logsSize]",
+      "recv.refund=saved.refund", "recv.snapshots=recv.snapshots[:idx]"] ∧ revertOtherStatements = [] := by
   decide
 
 open OntVerif.Gen.StateAlias in
+/-- (A4) who writes the log slice, the memdb pointer and the `Suicided` map, and how -/
 theorem C08_alias_writers :
-    logsWrites = [("AddLog", "self.logs = append(self.logs, log)"), ("RevertToSnapshot", "self.logs = self.logs[:sn.logsSize]")] ∧
-    memdbPointerWrites = [("RevertToSnapshot", "self.cacheDB.memdb = sn.changes")] ∧
-    suicidedWrites = [("CommitToCacheDB", "self.Suicided = make(map[common.Address]bool)"), ("RevertToSnapshot", "self.Suicided = sn.suicided"),
-      ("Suicide", "self.Suicided[addr] = true")] := by
+    logsWrites = [("AddLog", "append"), ("RevertToSnapshot", "truncate")] ∧
+    memdbPointerWrites = [("RevertToSnapshot", "snapshot-field:changes")] ∧
+    suicidedWrites = [("CommitToCacheDB", "fresh-make"), ("RevertToSnapshot", "snapshot-field:suicided"), ("Suicide", "set-entry:Suicided")] := by
   decide
 
 /-! ### `StateDB.Commit` / `CommitToCacheDB` (`Model/KVLive.lean`) -/
